@@ -632,6 +632,35 @@ func GasToFee(gas uint64, price *uint256.Int) *uint256.Int {
 	return new(uint256.Int).Mul(uint256.NewInt(gas), price)
 }
 
+// NegativeField returns the name of a count, period or ratio of r that is negative, "" if there is none.
+func (r *GovParams) NegativeField() string {
+	r.mtx.RLock()
+	defer r.mtx.RUnlock()
+
+	for _, f := range []struct {
+		name string
+		val  int64
+	}{
+		{"version", r.version},
+		{"maxValidatorCnt", r.maxValidatorCnt},
+		{"lazyRewardBlocks", r.lazyRewardBlocks},
+		{"lazyApplyingBlocks", r.lazyApplyingBlocks},
+		{"minVotingPeriodBlocks", r.minVotingPeriodBlocks},
+		{"maxVotingPeriodBlocks", r.maxVotingPeriodBlocks},
+		{"minSelfStakeRatio", r.minSelfStakeRatio},
+		{"maxUpdatableStakeRatio", r.maxUpdatableStakeRatio},
+		{"maxIndividualStakeRatio", r.maxIndividualStakeRatio},
+		{"slashRatio", r.slashRatio},
+		{"signedBlocksWindow", r.signedBlocksWindow},
+		{"minSignedBlocks", r.minSignedBlocks},
+	} {
+		if f.val < 0 {
+			return f.name
+		}
+	}
+	return ""
+}
+
 func MergeGovParams(oldParams, newParams *GovParams) {
 	if newParams.version == 0 {
 		newParams.version = oldParams.version
